@@ -197,7 +197,7 @@ def numeric_edges():
 
 def run(ctx):
     quick = ctx.tier == "quick"
-    L = 5 if quick else 6
+    L = 6 if quick else 7
     SL = 4 if quick else 5
     jobs = []
     # (a) exhaustive short strings
@@ -231,7 +231,7 @@ def run(ctx):
     ctx.distinct_extra += total["grammar"]
     # (c) grammar-directed + edits, (d) numeric edges
     rng = ctx.sub_rng("gen")
-    nrand = 30000 if quick else 600000
+    nrand = 120000 if quick else 800000
     rand = set()
     for _ in range(nrand):
         rand.add(mutate(gen_version(rng), rng))
